@@ -177,7 +177,7 @@ def run_side_script(binp, script, bound):
     os.makedirs(d, exist_ok=True)
     sp = os.path.join(d, "side_script.json")
     json.dump(script, open(sp, "w"))
-    rc, out, err = vlib.sh2([binp, "-script", sp, "-bound", bound], timeout=1200)
+    rc, out, err = vlib.sh2([binp, "-script", sp, "-bound", bound, "-budget", "150"], timeout=1200)
     return [json.loads(l) for l in out.splitlines() if l.startswith("{")]
 
 
@@ -282,7 +282,8 @@ def run(ck):
         from concurrent.futures import ThreadPoolExecutor
         with ThreadPoolExecutor(max_workers=2) as ex:
             main_run = ex.submit(vlib.sh2, [binp, "-seed", str(ck.seed), "-n", str(n), "-e2e", str(ne),
-                                            "-bound", bound, "-ep", str(nep), "-epb", str(nepb)], timeout=6000)
+                                            "-bound", bound, "-ep", str(nep), "-epb", str(nepb),
+                                            "-budget", "210" if not ck.thorough else "1500"], timeout=6000)
             side_run = ex.submit(run_side_script, binp, side_script, bound)
             rc, out, err = main_run.result()
             side_cases = side_run.result()
@@ -327,7 +328,9 @@ def run(ck):
     epb = {"scenarios": 0, "window_reached": 0, "parked_handlers": 0, "accepted_connections": 0,
            "accepted_after_the_loss": 0}
     shrunk = set()
-    ck.coverage["cases_skipped_after_repeated_stranding"] = len([c for c in cases if c.get("skipped")])
+    ck.coverage["cases_skipped_after_repeated_stranding"] = len([c for c in cases if c.get("skipped")
+                                                                 and not c.get("skipped_budget")])
+    ck.coverage["cases_skipped_wall_clock_budget"] = len([c for c in cases if c.get("skipped_budget")])
     cases = [c for c in cases if not c.get("skipped")]
     for c in cases:
         if c["stream"] == "tl":
